@@ -10,6 +10,26 @@ TRUST = ("Trusted base: go/ssa IR construction (x/tools v0.29.0), govc's SSA-to-
          "compose over the program tree. ")
 
 CLAIMS = {
+ 'C12': dict(
+  text="Deductive proof, for all arguments and all heaps, that every method of env.Env meets a contract written over the abstract view 'chain of dictionaries': "
+       "recursive spec functions foundV/lookupV/nearest/foundT/lookupT/rootOf (heap-reading, unfolded one step per activation) define nearest-binding lookup with the external lookup "
+       "consulted after the scope's own table and built-in type names last; GetValue/Type return exactly lookupV/lookupT or an error with NilValue/NilType; SetValue updates exactly the "
+       "nearest binding (whole-heap postcondition: the value heap equals the old one updated at that one key, the key sets are unchanged) or fails changing nothing; Define*/Delete change "
+       "exactly the addressed key of the addressed scope (quantified 'all other keys unchanged'), dotted names are rejected with nothing changed; DefineGlobal* act on the root; constructors and Copy "
+       "return fresh objects (fresh maps) and leave the source untouched; frames (modifies) and panic-freedom (nil map writes, nil derefs, index) are obligations on every function. "
+       "Not decided: that Copy's new maps have the same CONTENT as the source (needs a map-iteration model with a visited set), DeepCopy's chain shape, the element order of symbol listings.",
+  note=TRUST + "ExternalLookup implementations are modelled as pure functions of (object, name). Assumed: no typed-nil *Env is bound as a value; strings.Contains is a pure predicate; reflect.ValueOf/TypeOf are pure.",
+  technique="contract-based deductive verification: VCs from go/ssa against a dictionary-chain view, discharged by z3/cvc5",
+  ref="4 C12"),
+ 'C13': dict(
+  text="Deductive proof of the lock discipline from which atomicity follows: ghost lock state per scope; every read of the guarded fields values/types (and of the maps they point to) happens with the "
+       "scope's lock held, every write with the write lock; no lock is re-acquired while held; every lock taken is released on every exit path (incl. deferred unlocks); and, in 'concurrent mode' "
+       "(the guarded state of the scope is havoced at every acquire, modelling other goroutines), two-state critical-section contracts: Define/DefineType: the section's final table equals the table at "
+       "acquire updated at the key; SetValue: found-or-not is decided and the write done inside ONE section (a check under one acquisition and a write under another cannot prove it); Delete; readers "
+       "return a value of the table as of their own section. The step from this discipline to linearizability is the classical reduction argument and is NOT machine-checked; no interleavings are explored.",
+  note=TRUST + "Assumed: the parent chain is acyclic (child-to-parent lock order in Addr cannot cycle); sync.RWMutex implements a reader/writer lock; memory-model level races other than lock discipline are out of scope.",
+  technique="contract-based deductive verification: lockset discipline + havoc-at-acquire critical-section specs, discharged by z3/cvc5",
+  ref="4 C13"),
  'C15': dict(
   text="Deductive proof, for all inputs, of the scanner/lexer half of the property: every Scanner method, Lexer.Lex/Error, Parse and ParseSrc "
        "is symbolically executed from the SSA of /repo's working tree against contracts kept in parser/zz_contracts_verif.go; obligations: memory "
